@@ -230,7 +230,9 @@ def y_check(pid, tier, seed, exe, verdict):
             verdict.violation("router[%s,%s] random history: received values" % (c["rt"], c["sig"]),
                               "step %d notify(%s): received values %s, every receiver must get %s" % (bad_values[0], pstr(bad_values[1]), bad_values[2], EXPECT[c["sig"]](bad_values[0] + 1)),
                               {"component": "router", "xid": x, "router": c["rt"], "sig": c["sig"], "history": hist[:bad_values[0] + 1]})
-        if crash is not None:
+        if crash is not None and any(c["thr"].values()):
+            verdict.note("router[%s,%s, a callback throws] sanitizer / signal" % (c["rt"], c["sig"]), " ".join(crash.get("stderr", "").split())[:200])
+        elif crash is not None:
             k = sum(1 for r in recs if r.get("e") == "Obs")
             opn = c["steps"][k][0] if k < len(c["steps"]) else "?"
             if (pid == "C13") == (opn == "Shrink") or (pid == "C13" and "::shrink" in crash.get("freed_by", "")):
@@ -250,6 +252,10 @@ def y_check(pid, tier, seed, exe, verdict):
             own = "C06"
         else:
             own = "C13"     # subscribe / unsubscribe / invalidate only fail through exists()/depth()
+        if any(c["thr"].values()):
+            # callbacks that throw out of notify() are outside the quantifier of C06 / C13: reported, not judged
+            verdict.note("router[%s,%s, a callback throws] random history rejected at %s" % (c["rt"], c["sig"], nx.get("op")), {"matched": k})
+            continue
         if own == pid:
             hist = ["%s %s %s" % (op, pstr(p), i or "") for op, p, i in c["steps"]]
             verdict.violation("router[%s,%s] random history rejected at %s" % (c["rt"], c["sig"], nx.get("op")), {"matched": k, "next": {a: nx.get(a) for a in ("op", "p", "id", "dl", "ret", "dp")}},
